@@ -124,3 +124,6 @@ package module
 // GenerateMsgID reads the system random source; it changes nothing the contracts talk about.
 //@ func GenerateMsgID
 //@   prop C18
+
+// Sentinel errors are set at package initialisation and never reassigned.
+//@ axiom err-unknown-credentials-set: ErrUnknownCredentials != nil
